@@ -23,6 +23,12 @@ Two further layers leave the n,m <= 3 scope on purpose:
            apply_jitter, remove_taxa, append_taxa), 5 estimator objects, 39 (thorough 193) genotype matrices;
            oracle: kinship view exactly half of the CURRENT matrix and every view / summary equal to that of a
            fresh object built from the current matrix and labels (whether an operation itself is right is C03's).
+Every view round (and one deep case per estimator class in the enumeration) also runs the non-mutating oracle: each
+accessor / summary / export — kinship(*args) and coancestry(*args) in 12 argument forms (int, (int,int), slices, reversed
+slice, list, index arrays, boolean mask, Ellipsis), mat_asformat, inverse, max/min/mean in both formats and along every
+axis, min/max_inbreeding, is_positive_semidefinite, copy, deepcopy, to_pandas / to_csv / to_hdf5 into a temporary
+directory — is called twice; the canonical state (matrix bytes, labels, group metadata) must be bit-identical afterwards,
+both calls must return the same value, and the accessors must return (half of) the indexed part of the matrix.
 """
 from __future__ import annotations
 import itertools, math
@@ -359,7 +365,8 @@ def _deep(ctx, G, est, args, kw, cm, ref, reff):
     P = f"Dense{est}CoancestryMatrix"
     n = G.n
     mat0 = cm.mat.copy()
-    _nonmutating(ctx, cm, "from_gmat", exports=(est == "Molecular" or (est == "VanRaden" and args["p"][0] == "none")))
+    if est in ("Molecular", "Yang") or all(v[0] == "none" for v in args.values()):      # one object per estimator class
+        _nonmutating(ctx, cm, "from_gmat", exports=(est == "Molecular" and G.n * G.m <= 4))
     # accessors
     for i in range(n):
         for j in range(n):
@@ -780,10 +787,10 @@ def _fresh_like(cm):
     return f
 
 
-def _check_views(ctx, cm, done):
+def _check_views(ctx, cm, done, exports=False):
     """all views of the object must describe its current matrix"""
     B = "DenseCoancestryMatrix"
-    _nonmutating(ctx, cm, done)
+    _nonmutating(ctx, cm, done, exports=exports)
     mat = cm.mat
     K = cm.mat_asformat("kinship")
     ctx.transitions += 1
@@ -814,7 +821,7 @@ def run_history(ctx, G: GmatCase, est, args, ops, rounds=(True, True, True)):
     ctx.transitions += 2
     done = []
     if rounds[0]:
-        _check_views(ctx, cm, "construction")
+        _check_views(ctx, cm, "construction", exports=True)      # exports once per object of every estimator class
     for k, op in enumerate(ops):
         before = (cm.mat.copy(), None if cm.taxa is None else cm.taxa.copy())
         try:
